@@ -25,11 +25,14 @@ def run(e):
 def main():
     ap=argparse.ArgumentParser(); ap.add_argument("--only"); ap.add_argument("--jobs",type=int,default=4); a=ap.parse_args()
     idx=[e for e in json.load(open(os.path.join(V,"benign","index.json"))) if not a.only or a.only in e["name"]]
-    bad=0
+    bad=0; nlim=0
     with cf.ThreadPoolExecutor(max_workers=a.jobs) as ex:
         for name,st,al in ex.map(run,idx):
+            lim=next((e.get("known_limit") for e in idx if e["name"]==name),None)
+            if st=="alarm" and lim: st="limit"
             print("%-8s %s"%(st,name))
             for x in al: print("    ",x)
-            if st!="quiet": bad+=1
-    print("benign variants: %d, not quiet: %d"%(len(idx),bad)); return 2 if bad else 0
+            if st=="limit": print("     known limit:",lim); nlim+=1
+            elif st!="quiet": bad+=1
+    print("benign variants: %d, not quiet: %d, known limits (false alarms not yet removed): %d"%(len(idx),bad,nlim)); return 2 if bad else 0
 if __name__=="__main__": sys.exit(main())
